@@ -798,12 +798,16 @@ func (c *Client) Start() (addr net.Addr, err error) {
 		defer c.pipesWaitGroup.Done()
 		defer close(linesCh)
 
-		scanner := bufio.NewScanner(runner.Stdout())
+		stdout := runner.Stdout()
+		scanner := bufio.NewScanner(stdout)
 		for scanner.Scan() {
 			linesCh <- scanner.Text()
 		}
 		if scanner.Err() != nil {
 			c.logger.Error("error encountered while scanning stdout", "error", scanner.Err())
+			// The scanner gives up on a line longer than its buffer; keep
+			// draining so the plugin never blocks writing to its stdout pipe.
+			_, _ = io.Copy(io.Discard, stdout)
 		}
 	}()
 
